@@ -728,4 +728,197 @@ theorem walkAll_spec (hwf : WF m) (hk : FMap.NodupKeys m) :
 
 end all
 
+/-! ### 7. `walk_dir` itself, the fuel, the root, a decidable well-formedness check -/
+
+section start
+variable {w : World} {i : Nat} {m : FMap} (h : MemLeafAt w i m) (id : Nat)
+include h
+
+/-- `walk_dir` on an existing directory: the iterator starts with the listing, empty stack -/
+theorem run_walkDir (p : Str) (e : Entry) (hp : m.find? p = some e) (hdir : e.ftype = .dir) :
+    VPath.walkDir (mk i id p) w = (.ok (st i id (children m p) []), w) := by
+  have hr : Mem.readDir m p = .ok (m.keys.filterMap (childName p)) := by
+    simp [Mem.readDir, hp, hdir]
+  unfold VPath.walkDir st
+  simp only [bind, M.bind]
+  rw [run_vReadDir h (mk i id p) rfl]
+  have : (mk i id p).path = p := rfl
+  rw [this, hr]
+  simp only [Res.withPath, Res.map, pure, M.pure, List.map_nil]
+  unfold children
+  rw [List.map_map]
+  rfl
+
+/-- `walk_dir` on anything else fails with the path filled in, and there is no iterator -/
+theorem run_walkDir_fail (p : Str) (hp : ∀ e, m.find? p = some e → e.ftype ≠ .dir) :
+    VPath.walkDir (mk i id p) w =
+      (.err (if m.contains p then .other else .fileNotFound) (some p), w) := by
+  unfold VPath.walkDir
+  simp only [bind, M.bind]
+  rw [run_vReadDir h (mk i id p) rfl]
+  have : (mk i id p).path = p := rfl
+  rw [this]
+  unfold Mem.readDir FMap.contains
+  cases hf : m.find? p with
+  | none => rfl
+  | some e =>
+    have : e.ftype = .file := by
+      have := hp e hf
+      cases he : e.ftype with
+      | file => rfl
+      | dir => exact absurd he this
+    simp [this, fail, Res.withPath, Res.map]
+
+end start
+
+/-- the initial state is good, and what is pending are the keys strictly below `p` -/
+theorem start_good {m : FMap} (hwf : WF m) (hk : FMap.NodupKeys m) (p : Str) (e : Entry)
+    (hp : m.find? p = some e) (hdir : e.ftype = .dir) :
+    Good m (children m p) [] ∧
+    ∀ k, (∃ e', m.find? k = some e') → pending (children m p) [] k = below p k := by
+  have hg : Good m [] [p] := by
+    refine ⟨(by intro x hx; cases hx), ?_, (by simp)⟩
+    intro d hd
+    simp only [List.mem_singleton] at hd
+    subst hd; exact ⟨e, hp, hdir⟩
+  obtain ⟨g1, g2⟩ := expand_good hwf hk hg
+  refine ⟨g1, ?_⟩
+  intro k hk'
+  rw [← g2 k hk']
+  simp [pending]
+
+/-- more fuel does not change a finished walk (any filesystem) -/
+theorem walkAll_fuel_succ : ∀ (fuel : Nat) (s : VPath.Walk) (w w' : World) (l : List (Res VPath)),
+    VPath.walkAll fuel s w = (.ok l, w') → VPath.walkAll (fuel + 1) s w = (.ok l, w') := by
+  intro fuel
+  induction fuel with
+  | zero => intro s w w' l h; simp [VPath.walkAll, M.ret] at h
+  | succ fuel ih =>
+    intro s w w' l h
+    unfold VPath.walkAll at h ⊢
+    simp only [bind, M.bind] at h ⊢
+    rcases hn : VPath.walkNext s w with ⟨r, w1⟩
+    rw [hn] at h
+    cases r with
+    | panic => simp at h
+    | err k p => simp at h
+    | ok r =>
+      obtain ⟨item, s'⟩ := r
+      simp only at h ⊢
+      cases item with
+      | none => exact h
+      | some it =>
+        simp only [M.bind] at h ⊢
+        rcases hr : VPath.walkAll fuel s' w1 with ⟨r2, w2⟩
+        rw [hr] at h
+        cases r2 with
+        | panic => simp at h
+        | err k p => simp at h
+        | ok rest =>
+          rw [ih s' w1 w2 rest hr]
+          exact h
+
+theorem walkAll_fuel_le {fuel fuel' : Nat} (hle : fuel ≤ fuel') (s : VPath.Walk) (w w' : World)
+    (l : List (Res VPath)) (h : VPath.walkAll fuel s w = (.ok l, w')) :
+    VPath.walkAll fuel' s w = (.ok l, w') := by
+  induction hle with
+  | refl => exact h
+  | step _ ih => exact walkAll_fuel_succ _ s w w' l ih
+
+/-- in a well-formed map every key but the root lies below the root `""` -/
+theorem below_root {m : FMap} (hwf : WF m) : ∀ (n : Nat) (k : Str), k.length ≤ n →
+    (∃ e, m.find? k = some e) → k ≠ [] → below [] k = true := by
+  intro n
+  induction n with
+  | zero =>
+    intro k hk _ hne
+    cases k with
+    | nil => exact absurd rfl hne
+    | cons c cs => simp at hk
+  | succ n ih =>
+    intro k hk ⟨e, he⟩ hne
+    obtain ⟨hs, pe, hpe, _⟩ := hwf.2 k e he hne
+    have hb := below_parent_self k hs
+    by_cases hpar : parentInternal k = []
+    · rw [hpar] at hb; exact hb
+    · have := ih (parentInternal k) (by have := parent_length_lt k hs; omega) ⟨pe, hpe⟩ hpar
+      exact below_trans this hb
+
+/-- a decidable sufficient check of `WF` -/
+def wfCheck (m : FMap) : Bool :=
+  (match m.find? [] with
+   | some e => decide (e.ftype = .dir)
+   | none => false) &&
+  m.all (fun ke => decide (ke.1 = []) ||
+    (decide ('/' ∈ ke.1) && match m.find? (parentInternal ke.1) with
+      | some pe => decide (pe.ftype = .dir)
+      | none => false))
+
+theorem find?_mem (m : FMap) (k : Str) (e : Entry) (h : m.find? k = some e) : (k, e) ∈ m := by
+  induction m with
+  | nil => simp at h
+  | cons kv rest ih =>
+    obtain ⟨k', v⟩ := kv
+    rw [FMap.find?_cons] at h
+    split at h
+    · rename_i hk
+      injection h with h
+      subst hk; subst h; simp
+    · exact List.mem_cons_of_mem _ (ih h)
+
+theorem WF_of_check (m : FMap) (h : wfCheck m = true) : WF m := by
+  unfold wfCheck at h
+  rw [Bool.and_eq_true] at h
+  obtain ⟨h1, h2⟩ := h
+  constructor
+  · split at h1
+    · rename_i e he
+      exact ⟨e, he, by simpa using h1⟩
+    · cases h1
+  · intro k e hk hne
+    rw [List.all_eq_true] at h2
+    have := h2 (k, e) (find?_mem m k e hk)
+    simp only [Bool.or_eq_true, decide_eq_true_eq, Bool.and_eq_true] at this
+    rcases this with this | ⟨hs, hp⟩
+    · exact absurd this hne
+    · refine ⟨hs, ?_⟩
+      split at hp
+      · rename_i pe hpe
+        exact ⟨pe, hpe, by simpa using hp⟩
+      · cases hp
+
+/-- a finished walk has yielded fewer items than it had fuel (any filesystem) -/
+theorem walkAll_length_lt : ∀ (fuel : Nat) (s : VPath.Walk) (w w' : World) (l : List (Res VPath)),
+    VPath.walkAll fuel s w = (.ok l, w') → l.length < fuel := by
+  intro fuel
+  induction fuel with
+  | zero => intro s w w' l h; simp [VPath.walkAll, M.ret] at h
+  | succ fuel ih =>
+    intro s w w' l h
+    unfold VPath.walkAll at h
+    simp only [bind, M.bind] at h
+    rcases hn : VPath.walkNext s w with ⟨r, w1⟩
+    rw [hn] at h
+    cases r with
+    | panic => simp at h
+    | err k p => simp at h
+    | ok r =>
+      obtain ⟨item, s'⟩ := r
+      simp only at h
+      cases item with
+      | none =>
+        simp only [pure, M.pure, Prod.mk.injEq, Res.ok.injEq] at h
+        rw [← h.1]; simp
+      | some it =>
+        simp only [M.bind] at h
+        rcases hr : VPath.walkAll fuel s' w1 with ⟨r2, w2⟩
+        rw [hr] at h
+        cases r2 with
+        | panic => simp at h
+        | err k p => simp at h
+        | ok rest =>
+          have := ih s' w1 w2 rest hr
+          simp only [pure, M.pure, Prod.mk.injEq, Res.ok.injEq] at h
+          rw [← h.1]; simp; omega
+
 end Vfs.Wk
